@@ -11,7 +11,9 @@ ev == Tr[l]
 
 ObsTrace(op, args, ret, anyret, post) ==
     /\ op = ev.op /\ args = ev.args
-    /\ (anyret \/ ret = ev.ret)                                    \* E: return value not claimed
+    \* E: return value not claimed.  A differing return value does not stop the validation (the VALUE is what later
+    \* steps depend on): it is printed and reported by the check as a violation of its own.
+    /\ (anyret \/ ret = ev.ret \/ PrintT(<<"RET_MISMATCH", l>>))
     /\ post.a = (IF ev.ca THEN ev.pa ELSE Pre.a)
     /\ post.b = (IF ev.cb THEN ev.pb ELSE Pre.b)
 
